@@ -872,8 +872,13 @@ def oracle(ctx: Ctx, deep: bool = False):
         if scaler is None:
             ctx.notes.append("torch.amp.GradScaler('cpu') unavailable: mixed-precision runs skipped")
             break
-        with scratch_dir() as d:
-            r = ev.run_eprocess(d, c, total=c["T"], resume=False, val_steps=val[0], has_val=True, scaler=scaler[0])
+        try:
+            with scratch_dir() as d:
+                r = ev.run_eprocess(d, c, total=c["T"], resume=False, val_steps=val[0], has_val=True, scaler=scaler[0])
+        except Exception as e:  # noqa: BLE001 - the loop breaks the scaler's protocol
+            yield Violation("amp-run-raises:" + err_name(e), f"GradScaler enabled ({scaler[1]}), k={c['k']}: Engine.train raised "
+                            f"{err_name(e)}: {e}"[:300], _cfg_replay(c, check="amp", scaler=scaler[1], val_steps=val[0]))
+            continue
         ctx.count(("amp", scaler[1], proto("loop", toy_groups(c))), c["k"] >= 2, bucket=f"oracle/amp-enabled/k{c['k']}")
         bad = check_exact(c, r)
         if bad:
@@ -886,8 +891,14 @@ def oracle(ctx: Ctx, deep: bool = False):
         if ref is None:
             continue
         scaler = ev.amp_scaler(rng)
-        with scratch_dir() as d:
-            r = ev.run_eprocess(d, c2, total=c["T"], resume=False, val_steps=val[0], has_val=True, scaler=scaler[0])
+        try:
+            with scratch_dir() as d:
+                r = ev.run_eprocess(d, c2, total=c["T"], resume=False, val_steps=val[0], has_val=True, scaler=scaler[0])
+        except Exception as e:  # noqa: BLE001
+            yield Violation("amp-run-raises:" + err_name(e), f"GradScaler enabled ({scaler[1]}), clip={clip}, k={c['k']}: "
+                            f"Engine.train raised {err_name(e)}: {e}"[:300],
+                            _cfg_replay(c2, check="ampclip", scaler=scaler[1], val_steps=val[0]))
+            continue
         ctx.count(("amp-clip", scaler[1], clip, proto("loop", toy_groups(c))), c["k"] >= 2,
                   bucket=f"oracle/amp-enabled-clip/k{c['k']}")
         for it, ((w, lr), (rw, rlr)) in enumerate(zip(r["records"], ref)):
@@ -897,6 +908,22 @@ def oracle(ctx: Ctx, deep: bool = False):
                                 f"reference {rw}", _cfg_replay(c2, check="ampclip", scaler=scaler[1], val_steps=val[0],
                                                                iteration=it))
                 break
+    # (2e) … through engines that override `_do_iteration` (RIM with model.steps = 2, VSharpNet, the SSL base engine) and an
+    # engine with an additional `sensitivity_model` in `self.models` sharing the optimiser
+    from props import c16_engines as en
+
+    xcombos = [(e, [2, 3, 4, 2][j]) for j, e in enumerate(en.KINDS)] if not (ctx.thorough or deep) else \
+        [(e, k) for e in en.KINDS for k in (1, 2, 3, 4) for _ in range(2)]
+    for i, (kind, k) in enumerate(xcombos):
+        total, bs = rng.choice([5, 6, 7]) if k < 4 else 9, rng.randint(1, 2)
+        opt_kind, seed = ["sgd", "adam"][i % 2], rng.randrange(10 ** 6)
+        worst, bad = en.engine_check(kind, k, total, bs, opt_kind, seed)
+        ctx.count(("real-engine-x", kind, k, total, bs, opt_kind, seed), k >= 2, sample={"engine": kind, "k": k, "T": total,
+                  "bs": bs, "opt": opt_kind, "max_abs_deviation": worst}, bucket=f"oracle/real-engine/{kind}/k{k}/{opt_kind}")
+        if bad is not None:
+            yield Violation(f"step-not-mean-of-window-{kind}", f"{kind} engine, k={k}, {opt_kind}: parameters after iteration {bad} "
+                            f"deviate from the step on the window's mean gradient by {worst:.3g}",
+                            {"op": "real-engine-x", "engine": kind, "k": k, "T": total, "bs": bs, "opt": opt_kind, "seed": seed})
     # (3) resume: at a window boundary it must reproduce the uninterrupted run; inside a window it does not
     for i in range(ctx.budget(6, 40)):
         k = [2, 3, 2, 4][i % 4]
@@ -921,6 +948,10 @@ def oracle(ctx: Ctx, deep: bool = False):
 
 
 def replay(rep: dict) -> bool:
+    if rep.get("op") == "real-engine-x":
+        from props import c16_engines as en
+
+        return en.engine_check(rep["engine"], rep["k"], rep["T"], rep["bs"], rep["opt"], rep["seed"])[1] is not None
     if rep.get("op") == "real-engine":
         return real_engine_check(rep["engine"], rep["k"], rep["T"], rep["bs"], rep["opt"], rep["seed"])[1] is not None
     c = _cfg_from_replay(rep)
@@ -934,16 +965,22 @@ def replay(rep: dict) -> bool:
         from props import c16_events as ev
 
         sc = ev.amp_scaler_from(rep["scaler"])
-        with scratch_dir() as d:
-            r = ev.run_eprocess(d, c, total=c["T"], resume=False, val_steps=rep["val_steps"], has_val=True, scaler=sc)
+        try:
+            with scratch_dir() as d:
+                r = ev.run_eprocess(d, c, total=c["T"], resume=False, val_steps=rep["val_steps"], has_val=True, scaler=sc)
+        except Exception:  # noqa: BLE001
+            return True
         ref = _float_reference(dict(c, clip=0), "sgd", c.get("clip", 0))
         return ref is not None and any(max(abs(a - b) for a, b in zip(w, rw)) > 1e-9 for (w, _), (rw, _) in zip(r["records"], ref))
     if rep.get("check") == "amp":
         from props import c16_events as ev
 
         sc = ev.amp_scaler_from(rep["scaler"])
-        with scratch_dir() as d:
-            r = ev.run_eprocess(d, c, total=c["T"], resume=False, val_steps=rep["val_steps"], has_val=True, scaler=sc)
+        try:
+            with scratch_dir() as d:
+                r = ev.run_eprocess(d, c, total=c["T"], resume=False, val_steps=rep["val_steps"], has_val=True, scaler=sc)
+        except Exception:  # noqa: BLE001
+            return True
         return check_exact(c, r) is not None
     if rep.get("check") == "resume":
         full, a, b = check_resume(c, rep["stop_after"])
